@@ -2,20 +2,22 @@
 """try_mutant.py <patch.diff> <ID> [<ID>...] [--tier T]: apply a seeded change to /repo, run the
 named checks, restore /repo. Prints one line per check: id, exit code, VIOLATION lines."""
 import subprocess, sys, os
+VROOT = os.path.dirname(os.path.dirname(os.path.abspath(__file__)))
+REPO = os.environ.get("VERIF_REPO", "/repo")
 args = sys.argv[1:]
 tier = "quick"
 if "--tier" in args:
     i = args.index("--tier"); tier = args[i + 1]; del args[i:i + 2]
 patch, ids = args[0], args[1:]
-st = subprocess.run(["git", "-C", "/repo", "status", "--porcelain", "--untracked-files=no"], capture_output=True, text=True).stdout
+st = subprocess.run(["git", "-C", REPO, "status", "--porcelain", "--untracked-files=no"], capture_output=True, text=True).stdout
 if st.strip():
-    print("/repo is not clean:", st); sys.exit(2)
-r = subprocess.run(["git", "-C", "/repo", "apply", patch])
+    print(REPO, "is not clean:", st); sys.exit(2)
+r = subprocess.run(["git", "-C", REPO, "apply", patch])
 if r.returncode != 0:
     print("patch does not apply"); sys.exit(2)
 try:
     for pid in ids:
-        p = subprocess.run(["/verif/check", pid, "--tier", tier], capture_output=True, text=True, cwd="/verif")
+        p = subprocess.run([VROOT + "/check", pid, "--tier", tier], capture_output=True, text=True, cwd=VROOT)
         v = [l for l in p.stdout.splitlines() if l.startswith("VIOLATION") or l.startswith("KNOWN")]
         print(pid, "exit=%d" % p.returncode, "; ".join(v)[:300])
         if p.returncode not in (0, 1) or "-v" in sys.argv:
@@ -23,4 +25,4 @@ try:
         else:
             print("   ", "\n    ".join([l for l in p.stderr.splitlines() if "formula" in l or "TOOL" in l][:4]))
 finally:
-    subprocess.run(["git", "-C", "/repo", "checkout", "--", "."])
+    subprocess.run(["git", "-C", REPO, "checkout", "--", "."])
